@@ -53,7 +53,8 @@ def census_tracker_writers(tier, seed):
                         if fn.name not in WRITERS_UNDER_CONTRACT.get(rel, set()):
                             bad.append(f"{rel}:{fn.name}")
     if bad:
-        return [{"id": "census:tracker-writers", "status": "violated", "detail": f"tracker state written outside the functions under contract: {bad}",
+        # a new writer is not by itself a violation of C08: it voids the frame assumption of the balance proof, so the property is undecided
+        return [{"id": "census:tracker-writers", "status": "undecided", "detail": f"tracker state written outside the functions under contract (frame assumption of the proof void): {bad}",
                  "witness": {"functions": bad}}]
     return [{"id": "census:tracker-writers", "status": "holds", "detail": f"{n} writer functions, all under contract", "exhaustive": True}]
 
